@@ -381,3 +381,88 @@ def hostile_prefixes(case, res):
         S.shutdown()
         return S.ops[:5]
     sim_case(case, res, body)
+
+
+@scenario("tablefull")
+def tablefull(case, res):
+    """legal traffic that makes the daemon's fixed-size tables refuse: more states in one home bucket of the path index than its
+    neighbourhood holds (33 on the default table), more fetches than the fetch table holds, more routed requests in flight than
+    the routing index of the owner holds. After every refusal the connection goes on using what the refused request touched
+    (remove / re-add / change / fetch / get by others / its own end), witnesses running beside it; the sanitizers and the
+    witnesses' monitors are the oracle"""
+    prm = case.get("params", {})
+
+    def body(S, rng):
+        W = Witness(S, rng)
+        S.settle()
+        eo = int(S.cfg.get("CONFIG_ELEMENT_TABLE_ORDER", 13))
+        a = S.connect("a", rng.choice(["raw", "uds", "ws"]))
+        if a.transport == "ws":
+            S.handshake(a)
+        b = S.connect("b", rng.choice(["raw", "ws"]))
+        if b.transport == "ws":
+            S.handshake(b)
+        a.may_close = b.may_close = True
+        if rng.random() < 0.5:
+            S.request(b, "fetch", {"id": "tb", "path": {"startsWith": "t/"}})
+        paths = model.colliding_paths(eo, 38, prefix="t/", bucket=rng.choice([None, (1 << eo) - 1, 0]))
+        refused = []
+        for i, pth in enumerate(paths):
+            p = S.request(a, "add", {"path": pth, "value": i} if i % 3 else {"path": pth})
+            p.may_refuse = True
+            p.note_refused = refused
+            if rng.random() < 0.2:
+                S.settle()
+        S.settle()
+        n0 = S.stats["tolerated_refusals"] + S.stats["resource_refusals"]
+        S.stats["table_full_refusals"] += n0
+        S.sig("element-table", eo, n0 > 0)
+        live = sorted(q for q in S.elements if q.startswith("t/"))
+        missing = [q for q in paths if q not in S.elements]
+        # go on with what was refused, and with the neighbours
+        for _ in range(prm.get("after", 12)):
+            r = rng.random()
+            if r < 0.25 and missing:
+                p = S.request(a, "remove", {"path": rng.choice(missing)})
+            elif r < 0.4 and missing:
+                p = S.request(a, "change", {"path": rng.choice(missing), "value": "x"})
+                p.may_refuse = True
+            elif r < 0.55 and missing:
+                p = S.request(a, "add", {"path": rng.choice(missing), "value": 1})
+                p.may_refuse = True
+            elif r < 0.65 and live:
+                q = live.pop(rng.randrange(len(live)))
+                S.request(a, "remove", {"path": q})
+                missing.append(q)
+            elif r < 0.8:
+                S.request(b, "get", {"path": {"startsWith": "t/"}})
+            elif r < 0.9:
+                S.fidc = getattr(S, "fidc", 0) + 1
+                S.request(b, "fetch", {"id": "tf%d" % S.fidc, "path": {"contains": "/"}})
+            else:
+                W.tick()
+            if rng.random() < 0.5:
+                S.settle()
+                live = sorted(q for q in S.elements if q.startswith("t/"))
+                missing = [q for q in paths if q not in S.elements]
+        S.settle()
+        # fetch table: more fetches than it holds
+        nf = int(S.cfg.get("CONFIG_MAX_NUMBER_OF_FETCHES", S.cfg.get("CONFIG_INITIAL_FETCH_TABLE_SIZE", 4)))
+        for i in range(prm.get("fetches", 0)):
+            p = S.request(b, "fetch", {"id": "many%d" % i, "path": {"equals": "t/none%d" % i}})
+            p.may_refuse = True
+        S.settle()
+        S.end(a, rng.choice(["eof", "rst", "eof"]))
+        S.settle()
+        for _ in range(3):
+            W.tick()
+            S.settle()
+        S.request(b, "get", {})
+        S.settle()
+        if W.w1.closed or W.w2.closed:
+            S.v("conn/witness-connection-dropped", "w1 closed=%s w2 closed=%s" % (W.w1.closed, W.w2.closed))
+        st = S.close_all()
+        S.check_idle_baseline(st)
+        S.shutdown()
+        return S.ops[:10]
+    sim_case(case, res, body)
